@@ -43,6 +43,10 @@ def run(tier):
         src, mods = feat_exc.xmod_program(r2.fork(str(i)))
         plist.append({"name": "xmod/%d" % i, "steps": [("snip", src)], "mods": mods})
 
+    r3 = ck.rng.fork("locals")
+    for i in range(500 if quick else 15000):
+        plist.append({"name": "locals/%d" % i, "steps": [("snip", feat_exc.local_integrity_program(r3.fork(str(i))))], "mods": []})
+
     def seen(p, m, res):
         v = m["view"][0]
         src = p["steps"][0][1]
